@@ -156,6 +156,8 @@ def proximal_convex_conj(prox_factory):
         # Get the underlying space. At the same time, check if the given
         # prox_factory accepts stepsize objects of the type given by sigma.
         space = prox_factory(sigma).domain
+        if not np.isscalar(sigma):
+            sigma = space.element(sigma)
 
         mult_inner = MultiplyOperator(1.0 / sigma, domain=space, range=space)
         mult_outer = MultiplyOperator(sigma, domain=space, range=space)
